@@ -25,11 +25,41 @@ def allowed_exprs(params):
     return out
 
 
+def ancestor_locals(fn, params) -> set:
+    """locals that walk up from a target parameter: bound from the parameter (or from such a local) and re-bound only from
+    `<itself>.parent` — e.g. `child = entity; while ...: child = child.parent`.  The loop does for each ancestor what the recursive
+    form did by calling itself with entity.parent, so such a local is a target like the parameter it starts from."""
+    binds: dict = {}
+    for n in ast.walk(fn.node):
+        if isinstance(n, ast.Assign) and len(n.targets) == 1 and isinstance(n.targets[0], ast.Name):
+            binds.setdefault(n.targets[0].id, []).append(n.value)
+    out = set()
+    changed = True
+    while changed:
+        changed = False
+        for nm, vals in binds.items():
+            if nm in out or nm in params:
+                continue
+            ok = all(
+                (isinstance(v, ast.Name) and (v.id in TARGET_PARAMS and v.id in params or v.id in out))
+                or (isinstance(v, ast.Attribute) and v.attr == "parent" and isinstance(v.value, ast.Name) and (v.value.id == nm or v.value.id in out or (v.value.id in TARGET_PARAMS and v.value.id in params)))
+                for v in vals)
+            if ok and any(isinstance(v, ast.Name) for v in vals):
+                out.add(nm)
+                changed = True
+    res = set()
+    for nm in out:
+        res |= {nm, f"{nm}.parent", f"{nm}.entity_type"}
+    return res
+
+
 class Who:
     """who(handle expression) = the set of entity expressions whose node it denotes (or PROJECT)."""
 
-    def __init__(self, fn):
+    def __init__(self, fn, project=None):
         self.fn = fn
+        self.project = project
+        self._den = None
         self.sa_defs = single_assignments(fn.node)
         self.env: dict[str, set] = {}
         self.uid_of: dict[str, str] = {}  # local name -> entity expr whose uid it holds
@@ -100,6 +130,26 @@ class Who:
         return None
 
     def who(self, e) -> set:
+        got = self._who(e)
+        if got or self.project is None:
+            return got
+        # fall back on the denotation analysis (follows accessor helpers such as require_group(handle, key))
+        if self._den is None:
+            from ..h5den import Den
+
+            self._den = Den(self.fn, self.project)
+        out = set()
+        for path in self._den.paths(e):
+            root = path[0]
+            if root[0] in ("FILE", "PROJECT"):
+                out.add(PROJECT)
+            elif root[0] in ("NODE", "TNODE"):
+                out.add(root[1])
+            elif root[0] == "PARAM":
+                out.add(f"param:{root[1]}")
+        return out
+
+    def _who(self, e) -> set:
         if isinstance(e, ast.Name):
             got = set(self.env.get(e.id, set()))
             if not got and e.id in self.sa_defs:
@@ -185,8 +235,8 @@ def rule_prov(ctx) -> RuleResult:
     n_sites = 0
     for name, fn0 in W.methods.items():
         fn = ctx.view(fn0)
-        who = Who(fn)
-        allowed = allowed_exprs(who.params)
+        who = Who(fn, p)
+        allowed = allowed_exprs(who.params) | ancestor_locals(fn, who.params)
         # loops over handle members
         handle_loops = []
         for n in ast.walk(fn.node):
@@ -293,7 +343,7 @@ def rule_idemp(ctx) -> RuleResult:
         "C09",
         "on the re-save path of close() (save_entity -> write_entity's already-stored branch -> write_to_parent) every "
         "reachable HDF5 mutation is dominated by a `not in` test of the very key it creates: open(); close() rewrites nothing",
-        floor=4,
+        floor=2,
     )
     p = ctx.p
     W = p.cls("H5Writer")
@@ -302,7 +352,7 @@ def rule_idemp(ctx) -> RuleResult:
     se = ctx.view(W.methods["save_entity"])
     # write_entity: the stored test = `<uid string of the entity> in <handle>` (whatever the locals are called)
     g = CFG(we.node)
-    who_we = Who(we)
+    who_we = Who(we, p)
     stored = [n for n in g.nodes if n.kind == "test" and isinstance(n.ast, ast.Compare) and len(n.ast.ops) == 1 and isinstance(n.ast.ops[0], ast.In)
               and who_we.uid_expr(n.ast.left) is not None and who_we.who(n.ast.comparators[0])]
     if not stored:
@@ -390,7 +440,7 @@ def rule_handle(ctx) -> RuleResult:
     p = ctx.p
     fh = ctx.view(p.func("H5Writer.fetch_handle"))
     ent = fh.params[2]
-    who = Who(fh)
+    who = Who(fh, p)
     g = CFG(fh.node)
 
     def atoms(test, truth):
